@@ -130,7 +130,7 @@ pub fn node_stream(seed: u64, histories: usize, cfg: Cfg) -> Sink {
     let mut sink = Sink::default();
     let tables = Arc::new(Tables::new(cfg.keys.max(8), cfg.peers.max(4)));
     for _h in 0..histories {
-        let sdh = rng.chance(3, 4);
+        let sdh = rng.chance(1, 2);
         let mut ex = NodeExec::new(sdh, tables.clone());
         sink.push(format!("n reset {}", sdh as u8), "ok".into(), "-".into());
         let mut view = View { conns: BTreeMap::new(), next_conn: 1, queries: vec![], pending: BTreeMap::new(), handshake: BTreeMap::new() };
@@ -165,7 +165,7 @@ pub fn node_stream(seed: u64, histories: usize, cfg: Cfg) -> Sink {
                 let ps: Vec<u64> = view.conns.keys().copied().collect();
                 let p = *rng.pick(&ps);
                 let k = key(&mut rng, &cfg);
-                let second = match rng.below(3) {
+                let second = match rng.below(4) {
                     0 => format!("msg {p} h= d={k} b= w=N"),
                     1 => format!("msg {p} h= d= b={k}:{} w=N", k * 100),
                     _ => format!("msg {p} h={k} d= b= w=N"),
